@@ -372,7 +372,16 @@ C03(scn, obs) ==
 (***************************************************************************)
 (* C04: error fidelity.                                                    *)
 (***************************************************************************)
+\* "with the HTTP status its protocol's code table prescribes": for gRPC, gRPC-Web and Connect streaming that is
+\* 200 whatever the code - also when the error is the transcoder's own (a request it refuses after validation,
+\* a broken request stream), conveyed in the client's protocol
+C04OwnErrors(scn, obs) ==
+    IF Enveloped(scn.cl.form) /\ ~PassThru(scn) /\ ~ToUnknown(scn.cl.rej)
+       /\ obs.cl.end.place \in {"headers", "frame", "trailers"} /\ obs.cl.end.code > 0 /\ obs.cl.status # 200
+    THEN {"C04.StatusFromTable"} ELSE {}
+
 C04(scn, obs) ==
+    C04OwnErrors(scn, obs) \cup
     IF Rejected(scn) \/ PassThru(scn) \/ ClientFaulty(scn) \/ ~Dispatched(obs) \/ TheDisp(obs).herr # 0 THEN {} ELSE
     LET c == obs.cl
         e == scn.hd.end IN
